@@ -22,7 +22,8 @@ type Full struct {
 type FullOpts struct {
 	Nodes      int
 	MaxRetrans uint8
-	Gtpu       bool // bind the re-injection socket on the UPF address, port 2152
+	Retrans    time.Duration // retransmission timeout of UPF-initiated requests (default: an hour, no real timer fires)
+	Gtpu       bool          // bind the re-injection socket on the UPF address, port 2152
 }
 
 func NewFull(o FullOpts) (*Full, error) {
@@ -39,7 +40,7 @@ func NewFull(o FullOpts) (*Full, error) {
 	if err != nil {
 		return nil, err
 	}
-	s, err := stack.New(stack.Opts{Driver: d.G, Nodes: o.Nodes, MaxRetrans: o.MaxRetrans})
+	s, err := stack.New(stack.Opts{Driver: d.G, Nodes: o.Nodes, MaxRetrans: o.MaxRetrans, Retrans: o.Retrans})
 	if err != nil {
 		d.Close()
 		return nil, err
